@@ -809,7 +809,12 @@ class SRandom:
         self.rng = rng
         self.p = p
         self.left = d
+        self.d0 = d
         self.timer_prob = timer_prob
+
+    def refill(self):
+        """A fresh pre-emption budget (per driver command instead of per run)."""
+        self.left = self.d0
 
     def _others(self, sim, lt):
         return [t for t in sim.threads
